@@ -409,9 +409,12 @@ IsE2E(H, w) == H.par.min < H.par.max /\ SentOfRun(H, w)[1].ttl = H.par.max
 
 \* C11 (allocators): ranges returned to concurrent callers are pairwise disjoint modulo 65536, echo ids distinct
 C11_alloc(H) ==
-    LET a == H.got
+    LET a == SelectSeq(H.got, LAMBDA x : x.caller >= 0)
+        st == SelectSeq(H.got, LAMBDA x : x.caller < 0)       \* stress rounds: every block start handed out in one round
         ids(i) == {(a[i].base + t) % 65536 : t \in 1..a[i].m}
-    IN \A i, j \in DOMAIN a : i # j => (ids(i) \cap ids(j) = {} /\ a[i].echo # a[j].echo)
+    IN /\ \A i, j \in DOMAIN a : i # j => (ids(i) \cap ids(j) = {} /\ a[i].echo # a[j].echo)
+       \* blocks that are live together and do not overlap have pairwise different starts (a necessary condition, cheap on 2 000 blocks)
+       /\ \A r \in DOMAIN st : Cardinality({st[r].bases[k] : k \in DOMAIN st[r].bases}) = Len(st[r].bases)
 
 \* C15: all-or-error with exact counts
 C15_run(H) ==
